@@ -38,6 +38,9 @@ class Ctx(object):
         self.nshards = nshards
         self.rng = random.Random("%s/%d/%d" % (prop, seed, shard))
         self.t0 = time.time()
+        # budgets are CPU time of the worker, not wall-clock: on a loaded machine a worker takes longer but does
+        # the same amount of work (the runner keeps a generous wall-clock watchdog whose firing is inconclusive)
+        self.c0 = time.process_time()
         self.budget_s = budget_s
         self.counters = {}       # oracle name -> number of evaluations
         self.findings = []       # list of Finding
@@ -52,7 +55,7 @@ class Ctx(object):
 
     # --------------------------------------------------------------- budget
     def time_left(self):
-        return self.budget_s - (time.time() - self.t0)
+        return self.budget_s - (time.process_time() - self.c0)
 
     def out_of_time(self):
         return self.time_left() <= 0
@@ -122,7 +125,7 @@ class Ctx(object):
             cases=self.cases, counters=self.counters, findings=self.findings,
             sig_count=self.sig_count, distinct=sorted(self.distinct), samples=self.samples,
             cells=self.cells, notes=self.notes, skipped=self.skipped,
-            wall_s=round(time.time() - self.t0, 3))
+            wall_s=round(time.time() - self.t0, 3), cpu_s=round(time.process_time() - self.c0, 3))
 
 
 def dump_result(ctx, path):
